@@ -44,3 +44,4 @@ void __vf_mutex_unlock(void* m) { __CPROVER_assert(lock_depth == 1, "mutex unloc
 void __vf_register_alloc(const void* p) {}
 void __vf_access(const void* p, int w) {}
 void __vf_lib_write(const void* p) {}
+_Bool __vf_mutex_try_lock(void* m) { __vf_mutex_lock(m); return 1; }
